@@ -913,6 +913,57 @@ func ruleCopyUIDProvenance(c *Ctx, rule string) {
 				fmt.Sprintf("CopyData.%s is fed with %s values: COPYUID reports UIDs that are not the %s messages'", r.Field.Name(), strings.Join(uniq(bad), ","), want))
 		})
 	}
+	// second form: the sets are filled in place, through the fields of the
+	// CopyData being built (data.SourceUIDs.AddNum(uid))
+	for _, fn := range p.SrcFuncs("imapserver/imapmemserver") {
+		allInstrs(fn, func(i ssa.Instruction) {
+			call, ok := i.(*ssa.Call)
+			if !ok || len(call.Call.Args) < 2 {
+				return
+			}
+			if k := callKey(call); k != "(*UIDSet).AddNum" && k != "(*UIDSet).AddRange" {
+				return
+			}
+			r, ok := fieldOf(call.Call.Args[0])
+			if !ok || r.Owner == nil || r.Owner.Obj().Name() != "CopyData" || (r.Field.Name() != "SourceUIDs" && r.Field.Name() != "DestUIDs") {
+				return
+			}
+			want := "source"
+			if r.Field.Name() == "DestUIDs" {
+				want = "dest"
+			}
+			n++
+			var bad []string
+			feeds := 0
+			for _, a := range call.Call.Args[1:] {
+				var elems []ssa.Value
+				if sl, ok := a.(*ssa.Slice); ok {
+					if arr, ok := sl.X.(*ssa.Alloc); ok {
+						for _, r2 := range *arr.Referrers() {
+							if ia, ok := r2.(*ssa.IndexAddr); ok {
+								for _, r3 := range *ia.Referrers() {
+									if s3, ok := r3.(*ssa.Store); ok && s3.Addr == ssa.Value(ia) {
+										elems = append(elems, s3.Val)
+									}
+								}
+							}
+						}
+					}
+				} else {
+					elems = append(elems, a)
+				}
+				for _, e := range elems {
+					feeds++
+					if k := kind(e); k != want {
+						bad = append(bad, k)
+					}
+				}
+			}
+			key := fmt.Sprintf("%s: CopyData.%s filled in place", fnKey(fn), r.Field.Name())
+			c.check(len(bad) == 0 && feeds > 0, rule, key, call.Pos(), fmt.Sprintf("fed only with %s UIDs (%d insertions)", want, feeds),
+				fmt.Sprintf("CopyData.%s is fed with %s values: COPYUID reports UIDs that are not the %s messages'", r.Field.Name(), strings.Join(uniq(bad), ","), want))
+		})
+	}
 	if n == 0 {
 		c.unresolvedRoot("constructions of imap.CopyData in the backend")
 	}
@@ -1559,6 +1610,20 @@ func ruleEnabledResetOnUnauth(c *Ctx, rule string) {
 		})
 	}
 	scan(complete, false)
+	// the type switch itself may sit in a helper of completeCommand
+	for _, h := range helperClosure(complete, 2) {
+		if h != complete && h.Parent() == nil {
+			scan(h, false)
+			allInstrs(h, func(i ssa.Instruction) {
+				if call, ok := i.(*ssa.Call); ok && inCase(i.Block()) {
+					pos = call.Pos()
+					if cal := staticCallee(call); cal != nil && inModule(cal) && cal.Blocks != nil {
+						scan(cal, true)
+					}
+				}
+			})
+		}
+	}
 	// helpers called from the case body (one level)
 	allInstrs(complete, func(i ssa.Instruction) {
 		if call, ok := i.(*ssa.Call); ok && inCase(i.Block()) {
